@@ -106,6 +106,28 @@ pub fn run(mut run: Run) -> i32 {
             }
         }
     });
+    // images of the lattice families under integer affine maps: the exact oracle is recomputed on the image (no invariance assumed); the images have no
+    // axis-parallel edges, steep and nearly parallel edges, larger coordinates and intersection points that are not representable
+    {
+        let maps = imaps();
+        let step = run.ctx.pick(5, 2);
+        let sub: Vec<&Shape> = shapes.iter().step_by(step).collect();
+        let ns = sub.len();
+        for f in &maps {
+            let img: Vec<Shape> = sub.iter().map(|s| map_shape(s, f)).collect();
+            run.stage(&format!("pairs-affine-image {}", f.name), ns * ns, |idx, acc| {
+                let (a, b) = (&img[idx / ns], &img[idx % ns]);
+                let truth = mstr(&de9im(&a.ag, &b.ag));
+                acc.class(format!("{}x{}:{}", a.ty(), b.ty(), truth));
+                acc.sample(idx, || json!({"a": a.wkt(), "b": b.wkt(), "true_matrix": truth, "map": f.name}));
+                acc.evals += 1;
+                let got = guard(|| relate_concrete(&a.g, &b.g)).unwrap_or_else(|e| format!("panic:{}", e));
+                if got != truth {
+                    acc.viol(format!("relate[affine image] {}x{} true={} got={}", a.ty(), b.ty(), truth, got), idx, || json!({"a": a.wkt(), "b": b.wkt(), "true": truth, "got": got, "map": f.name}));
+                }
+            });
+        }
+    }
     if !run.ctx.quick() {
         let g4 = families(&cfg_g4());
         let n4 = g4.len();
